@@ -35,6 +35,7 @@ StaleOutcome == MC_C1      \* what the earlier estimation had saved
 \* bootstrap settings on two scalar configurations and the default matrices, K = 1, 2, 3
 IOK(K) == Product(K, MC_ScalarsTwo, DefaultH(K), DefaultB(K), MC_BootTwo(K), MC_Theta(K))
 IO_Small == IOK(1) \cup IOK(2) \cup IOK(3)
+IO_Full  == MC_Quick \cup IO_Small
 IO_Stale4 == {{}, {0}, {1}, {0, 1}}
 IO_Stale2 == {{}, {0, 2}}
 
